@@ -19,6 +19,9 @@
 #include <cstdlib>
 #include <cstring>
 #include <fstream>
+#include <unistd.h>
+#include <sys/wait.h>
+#include <functional>
 #include <link.h>
 #include <map>
 #include <memory>
@@ -142,6 +145,10 @@ static void load_spec(const char * path, uint64_t seed, long n_iid)
       for (size_t cell : {1, 2, 3})
         for (double eps : {-1e-9, 1e-9})
           if (t + eps > 0 && t + eps < 1) g_items.push_back({(int)ci, base + (j++), {{cell, t + eps}}});
+    // both tails of each of the first 16 draws: the gamma / conversion electron / pair decision of a transition is taken at
+    // u (1 + coefficients) and is not a harvested threshold - the upper tail selects the rare outcome wherever that draw sits
+    for (size_t cell = 0; cell < 16; cell++)
+      for (double v : {1e-9, 1 - 1e-9}) g_items.push_back({(int)ci, base + (j++), {{cell, v}}});
   }
 }
 
@@ -190,6 +197,117 @@ int main(int argc, char ** argv)
     bxdecay0::event ex;
     size_t d = shoot_item(g_items[x], seed, ex);
     fprintf(OUT, "{\"draws\":%zu,\"event\":%s}\n", d, event_json(ex).c_str());
+    return 0;
+  }
+  if (mode == "itemfresh") {
+    // c07_statics itemfresh <spec> <seed> <n_iid> <first> <count>
+    // every item of configurations first..first+count-1 as the FIRST thing a process does with the library (a forked child of this
+    // process, which itself never calls the library) against the same item inside a child that walks all items of the configuration in
+    // order: an event may not depend on whether an ordinary decay of the same nuclide came before it in the process
+    if (argc < 7) return 2;
+    load_spec(argv[2], seed, atol(argv[4]));
+    size_t first = (size_t)atol(argv[5]), count = (size_t)atol(argv[6]);
+    auto item_hash = [&](decay0_generator & g, const Item & it) -> uint64_t {
+      bxdecay0::event e;
+      Tape t(seed, it.stream);
+      for (auto & p : it.pins) t.pin(p.first, p.second);
+      try {
+        g.shoot(t, e);
+      } catch (std::exception &) {
+        return 0xdeadULL;
+      }
+      return (hash_str(event_json(e)) * 1099511628211ull) ^ (uint64_t)t.pos;
+    };
+    auto make = [&](size_t ci, decay0_generator & g) {
+      const Cfg & c = g_cfgs[ci];
+      if (c.kind == 'B') {
+        g.set_decay_category(decay0_generator::DECAY_CATEGORY_BACKGROUND);
+        g.set_decay_isotope(c.name);
+      } else {
+        g.set_decay_category(decay0_generator::DECAY_CATEGORY_DBD);
+        g.set_decay_isotope(c.name);
+        g.set_decay_dbd_level(c.level);
+        g.set_decay_dbd_mode((bxdecay0::dbd_mode_type)c.mode);
+      }
+      Tape ti(seed, 3);
+      g.initialize(ti);
+    };
+    // runs f in a forked child and returns what it wrote (a vector of hashes)
+    auto in_child = [&](const std::function<void(std::vector<uint64_t> &)> & f, std::vector<uint64_t> & out) -> bool {
+      int fd[2];
+      if (pipe(fd) != 0) return false;
+      fflush(nullptr);
+      pid_t pid = fork();
+      if (pid == 0) {
+        close(fd[0]);
+        std::vector<uint64_t> v;
+        try {
+          f(v);
+        } catch (std::exception &) {
+          v.assign(1, 0xbadULL);
+        }
+        size_t n = v.size();
+        if (write(fd[1], &n, sizeof n) < 0) _exit(3);
+        if (n && write(fd[1], v.data(), n * sizeof(uint64_t)) < 0) _exit(3);
+        _exit(0);
+      }
+      close(fd[1]);
+      size_t n = 0;
+      bool ok = read(fd[0], &n, sizeof n) == (ssize_t)sizeof n && n < (1u << 24);
+      if (ok) {
+        out.resize(n);
+        size_t got = 0;
+        while (got < n * sizeof(uint64_t)) {
+          ssize_t k = read(fd[0], (char *)out.data() + got, n * sizeof(uint64_t) - got);
+          if (k <= 0) { ok = false; break; }
+          got += (size_t)k;
+        }
+      }
+      close(fd[0]);
+      int st = 0;
+      waitpid(pid, &st, 0);
+      return ok && WIFEXITED(st) && WEXITSTATUS(st) == 0;
+    };
+    long compared = 0, failed_children = 0;
+    std::string js = "[";
+    bool firstrec = true;
+    for (size_t ci = first; ci < first + count && ci < g_cfgs.size(); ci++) {
+      std::vector<size_t> idx;
+      for (size_t k = 0; k < g_items.size(); k++)
+        if ((size_t)g_items[k].cfg == ci) idx.push_back(k);
+      std::vector<uint64_t> seq;
+      if (!in_child([&](std::vector<uint64_t> & v) {
+            decay0_generator g;
+            make(ci, g);
+            for (size_t k : idx) v.push_back(item_hash(g, g_items[k]));
+          }, seq) || seq.size() != idx.size()) {
+        failed_children++;
+        continue;
+      }
+      long differing = 0;
+      long witness = -1;
+      for (size_t j = 0; j < idx.size(); j++) {
+        std::vector<uint64_t> one;
+        if (!in_child([&](std::vector<uint64_t> & v) {
+              decay0_generator g;
+              make(ci, g);
+              v.push_back(item_hash(g, g_items[idx[j]]));
+            }, one) || one.size() != 1) {
+          failed_children++;
+          continue;
+        }
+        compared++;
+        if (one[0] != seq[j]) {
+          if (differing++ == 0) witness = (long)j;
+        }
+      }
+      if (differing) {
+        js += fmt("%s{\"cfg\":%zu,\"config\":%s,\"items\":%zu,\"differing\":%ld,\"first_witness_position\":%ld}", firstrec ? "" : ",", ci, jstr(g_cfgs[ci].label()).c_str(), idx.size(), differing, witness);
+        firstrec = false;
+      }
+    }
+    js += "]";
+    fprintf(OUT, "{\"mode\":\"itemfresh\",\"compared\":%ld,\"failed_children\":%ld,\"differing\":%s}\n", compared, failed_children, js.c_str());
     return 0;
   }
   if (mode == "cfghash") {
